@@ -3,9 +3,8 @@
 set -e
 cd "$(dirname "$0")/.."
 export GOFLAGS=-mod=mod GOPROXY=off GOSUMDB=off GOTOOLCHAIN=local
-bin/mkcoq
-set -o pipefail
-( cd coq && timeout 3400 make -j16 2>&1 | tail -n 40 ) || { echo "setup: coq build failed"; exit 1; }
+# -k: one broken file must not stop the others from building; every check re-makes its own targets and reports.
+COQ_TIMEOUT=3400 bin/coqbuild -k || echo "setup: some Coq files failed to build (the checks that need them will report it)"
 # warm go caches (harness + translators); failures here are reported by the checks themselves
 python3 - <<'PY' || true
 import sys, os
